@@ -759,4 +759,213 @@ theorem ethSerSpec_ethII (l : Ethernet) (p : Bytes) (fix : Bool) (hw : wfEth l)
   rw [if_neg (by omega), if_neg (by omega), if_neg (by simp [hl0, hne]),
     pad60_hdr _ _ (by simp [hd, hs, putBe16])]
 
+/-! ## 11. The DecodingLayerParser loop over {Ethernet, Dot1Q} -/
+
+theorem ethDecSpec_err (w : Bytes) : (ethDecSpec w).err = false := by
+  unfold ethDecSpec; simp only; split
+  · split <;> rfl
+  · rfl
+
+theorem ethDecSpec_payload_le (w : Bytes) (h : 14 ≤ w.length) :
+    (ethDecSpec w).layer.payload.length + 14 ≤ w.length := by
+  unfold ethDecSpec; simp only; split
+  · split <;> simp only [List.length_take, List.length_drop] <;> omega
+  · simp only [List.length_drop]; omega
+
+/-- One iteration of the parser loop on an Ethernet layer, in terms of the decode specification. -/
+theorem dlpLoop_eth (fuel : Nat) (st : DlpState) (data : GSlice) :
+    dlpLoop (fuel + 1) st LayerTypeEthernet data =
+      if data.len < 14 then .ok ({ st with trunc := st.trunc || false }, 1)
+      else
+        let o := ethDecSpec data.vis
+        let st' : DlpState := { st with eth := o.layer, trunc := st.trunc || o.trunc,
+                                        decoded := st.decoded ++ [LayerTypeEthernet] }
+        let rest : GSlice := { vis := o.layer.payload,
+                               tail := (data.vis.drop (14 + o.layer.payload.length)) ++ data.tail }
+        if rest.len = 0 then .ok (st', 0) else dlpLoop fuel st' o.layer.nextLayerType rest := by
+  by_cases h : data.len < 14
+  · rw [if_pos h]
+    unfold dlpLoop
+    simp only [if_true, Ethernet.decode_short st.eth data h]
+  · rw [if_neg h]
+    conv => lhs; unfold dlpLoop
+    simp only [if_true, Ethernet.decode_long st.eth data (by omega), ethDecSpec_err]
+    rfl
+
+theorem dlpLoop_dot1q (fuel : Nat) (st : DlpState) (data : GSlice) :
+    dlpLoop (fuel + 1) st LayerTypeDot1Q data =
+      if data.len < 4 then .ok ({ st with trunc := st.trunc || true }, 1)
+      else
+        let o := dot1qDecSpec data.vis
+        let st' : DlpState := { st with dot1q := o.layer, trunc := st.trunc || o.trunc,
+                                        decoded := st.decoded ++ [LayerTypeDot1Q] }
+        let rest : GSlice := { vis := o.layer.payload, tail := data.tail }
+        if rest.len = 0 then .ok (st', 0) else dlpLoop fuel st' o.layer.nextLayerType rest := by
+  have hne : ¬ (LayerTypeDot1Q = LayerTypeEthernet) := by decide
+  by_cases h : data.len < 4
+  · rw [if_pos h]
+    unfold dlpLoop
+    simp only [hne, if_false, if_true, Dot1Q.decode_short st.dot1q data h]
+  · rw [if_neg h]
+    conv => lhs; unfold dlpLoop
+    simp only [hne, if_false, if_true, Dot1Q.decode_long st.dot1q data (by omega)]
+    rfl
+
+theorem dlpLoop_other (fuel : Nat) (st : DlpState) (typ : Nat) (data : GSlice)
+    (h1 : typ ≠ LayerTypeEthernet) (h2 : typ ≠ LayerTypeDot1Q) :
+    dlpLoop (fuel + 1) st typ data = if typ = LayerTypeZero then .ok (st, 0) else .ok (st, 2) := by
+  unfold dlpLoop
+  simp only [h1, h2, if_false]
+
+theorem dlpLoop_no_panic (fuel : Nat) (st : DlpState) (typ : Nat) (data : GSlice) (k : PanicKind) :
+    dlpLoop fuel st typ data ≠ .panic k := by
+  induction fuel generalizing st typ data with
+  | zero => unfold dlpLoop; exact fun h => nomatch h
+  | succ fuel ih =>
+    by_cases h1 : typ = LayerTypeEthernet
+    · subst h1; rw [dlpLoop_eth]
+      split
+      · exact fun h => nomatch h
+      · simp only; split
+        · exact fun h => nomatch h
+        · exact ih _ _ _
+    · by_cases h2 : typ = LayerTypeDot1Q
+      · subst h2; rw [dlpLoop_dot1q]
+        split
+        · exact fun h => nomatch h
+        · simp only; split
+          · exact fun h => nomatch h
+          · exact ih _ _ _
+      · rw [dlpLoop_other _ _ _ _ h1 h2]; split <;> exact fun h => nomatch h
+
+/-- The fuel `|data| + 1` of `dlpDecodeLayers` suffices: any two amounts of fuel above the input
+    length give the same run (each iteration consumes at least 4 bytes). -/
+theorem dlpLoop_fuel (f1 f2 : Nat) (st : DlpState) (typ : Nat) (data : GSlice)
+    (h1 : data.len < f1) (h2 : data.len < f2) :
+    dlpLoop f1 st typ data = dlpLoop f2 st typ data := by
+  induction f1 generalizing f2 st typ data with
+  | zero => omega
+  | succ f1 ih =>
+    cases f2 with
+    | zero => omega
+    | succ f2 =>
+      by_cases e1 : typ = LayerTypeEthernet
+      · subst e1; rw [dlpLoop_eth, dlpLoop_eth]
+        by_cases hs : data.len < 14
+        · rw [if_pos hs, if_pos hs]
+        · rw [if_neg hs, if_neg hs]
+          simp only
+          have hp := ethDecSpec_payload_le data.vis (by unfold GSlice.len at hs; omega)
+          split
+          · rfl
+          · exact ih _ _ _ _ (by unfold GSlice.len at *; simp only; omega) (by unfold GSlice.len at *; simp only; omega)
+      · by_cases e2 : typ = LayerTypeDot1Q
+        · subst e2; rw [dlpLoop_dot1q, dlpLoop_dot1q]
+          by_cases hs : data.len < 4
+          · rw [if_pos hs, if_pos hs]
+          · rw [if_neg hs, if_neg hs]
+            simp only
+            split
+            · rfl
+            · refine ih _ _ _ _ ?_ ?_ <;>
+                (unfold GSlice.len at *; simp only [dot1qDecSpec, List.length_drop]; omega)
+        · rw [dlpLoop_other _ _ _ _ e1 e2, dlpLoop_other _ _ _ _ e1 e2]
+
+/-- The result of the parser loop does not depend on the capacity of the packet buffer / the bytes
+    behind the input. -/
+theorem dlpLoop_cap (fuel : Nat) (st : DlpState) (typ : Nat) (v t1 t2 : Bytes) :
+    dlpLoop fuel st typ { vis := v, tail := t1 } = dlpLoop fuel st typ { vis := v, tail := t2 } := by
+  induction fuel generalizing st typ v t1 t2 with
+  | zero => unfold dlpLoop; rfl
+  | succ fuel ih =>
+    by_cases e1 : typ = LayerTypeEthernet
+    · subst e1; rw [dlpLoop_eth, dlpLoop_eth]
+      by_cases hs : v.length < 14
+      · rw [if_pos (show GSlice.len { vis := v, tail := t1 } < 14 from hs),
+          if_pos (show GSlice.len { vis := v, tail := t2 } < 14 from hs)]
+      · rw [if_neg (show ¬ GSlice.len { vis := v, tail := t1 } < 14 from hs),
+          if_neg (show ¬ GSlice.len { vis := v, tail := t2 } < 14 from hs)]
+        simp only
+        by_cases h0 : (ethDecSpec v).layer.payload.length = 0
+        · rw [if_pos (show GSlice.len { vis := (ethDecSpec v).layer.payload, tail := _ } = 0 from h0),
+            if_pos (show GSlice.len { vis := (ethDecSpec v).layer.payload, tail := _ } = 0 from h0)]
+        · rw [if_neg (show ¬ GSlice.len { vis := (ethDecSpec v).layer.payload, tail := _ } = 0 from h0),
+            if_neg (show ¬ GSlice.len { vis := (ethDecSpec v).layer.payload, tail := _ } = 0 from h0)]
+          exact ih _ _ _ _ _
+    · by_cases e2 : typ = LayerTypeDot1Q
+      · subst e2; rw [dlpLoop_dot1q, dlpLoop_dot1q]
+        by_cases hs : v.length < 4
+        · rw [if_pos (show GSlice.len { vis := v, tail := t1 } < 4 from hs),
+            if_pos (show GSlice.len { vis := v, tail := t2 } < 4 from hs)]
+        · rw [if_neg (show ¬ GSlice.len { vis := v, tail := t1 } < 4 from hs),
+            if_neg (show ¬ GSlice.len { vis := v, tail := t2 } < 4 from hs)]
+          simp only
+          by_cases h0 : (dot1qDecSpec v).layer.payload.length = 0
+          · rw [if_pos (show GSlice.len { vis := (dot1qDecSpec v).layer.payload, tail := _ } = 0 from h0),
+              if_pos (show GSlice.len { vis := (dot1qDecSpec v).layer.payload, tail := _ } = 0 from h0)]
+          · rw [if_neg (show ¬ GSlice.len { vis := (dot1qDecSpec v).layer.payload, tail := _ } = 0 from h0),
+              if_neg (show ¬ GSlice.len { vis := (dot1qDecSpec v).layer.payload, tail := _ } = 0 from h0)]
+            exact ih _ _ _ _ _
+      · rw [dlpLoop_other _ _ _ _ e1 e2, dlpLoop_other _ _ _ _ e1 e2]
+
+/-- Two parser states agree on everything a caller may rely on after DecodeLayers: the decoded type
+    list, the truncation flag, and the contents of every layer object whose type is in the list. -/
+def DlpAgree (s1 s2 : DlpState) : Prop :=
+  s1.decoded = s2.decoded ∧ s1.trunc = s2.trunc ∧
+  (LayerTypeEthernet ∈ s1.decoded → s1.eth = s2.eth) ∧
+  (LayerTypeDot1Q ∈ s1.decoded → s1.dot1q = s2.dot1q)
+
+theorem dlpLoop_agree (fuel : Nat) (s1 s2 : DlpState) (typ : Nat) (data : GSlice) (h : DlpAgree s1 s2) :
+    ∃ r1 r2 c, dlpLoop fuel s1 typ data = .ok (r1, c) ∧ dlpLoop fuel s2 typ data = .ok (r2, c) ∧
+      DlpAgree r1 r2 := by
+  induction fuel generalizing s1 s2 typ data with
+  | zero => exact ⟨s1, s2, 0, by unfold dlpLoop; rfl, by unfold dlpLoop; rfl, h⟩
+  | succ fuel ih =>
+    obtain ⟨hd, ht, he, hq⟩ := h
+    have hne : LayerTypeDot1Q ≠ LayerTypeEthernet := by decide
+    by_cases e1 : typ = LayerTypeEthernet
+    · subst e1; rw [dlpLoop_eth, dlpLoop_eth]
+      by_cases hs : data.len < 14
+      · rw [if_pos hs, if_pos hs]
+        exact ⟨_, _, 1, rfl, rfl, hd, by simp only [ht], he, hq⟩
+      · rw [if_neg hs, if_neg hs]
+        simp only
+        have hag : DlpAgree
+            { s1 with eth := (ethDecSpec data.vis).layer, trunc := s1.trunc || (ethDecSpec data.vis).trunc,
+                      decoded := s1.decoded ++ [LayerTypeEthernet] }
+            { s2 with eth := (ethDecSpec data.vis).layer, trunc := s2.trunc || (ethDecSpec data.vis).trunc,
+                      decoded := s2.decoded ++ [LayerTypeEthernet] } := by
+          refine ⟨by simp only [hd], by simp only [ht], fun _ => rfl, fun hm => ?_⟩
+          simp only [List.mem_append, List.mem_singleton] at hm
+          rcases hm with hm | hm
+          · exact hq hm
+          · exact absurd hm hne
+        split
+        · exact ⟨_, _, 0, rfl, rfl, hag⟩
+        · exact ih _ _ _ _ hag
+    · by_cases e2 : typ = LayerTypeDot1Q
+      · subst e2; rw [dlpLoop_dot1q, dlpLoop_dot1q]
+        by_cases hs : data.len < 4
+        · rw [if_pos hs, if_pos hs]
+          exact ⟨_, _, 1, rfl, rfl, hd, by simp only [ht], he, hq⟩
+        · rw [if_neg hs, if_neg hs]
+          simp only
+          have hag : DlpAgree
+              { s1 with dot1q := (dot1qDecSpec data.vis).layer, trunc := s1.trunc || (dot1qDecSpec data.vis).trunc,
+                        decoded := s1.decoded ++ [LayerTypeDot1Q] }
+              { s2 with dot1q := (dot1qDecSpec data.vis).layer, trunc := s2.trunc || (dot1qDecSpec data.vis).trunc,
+                        decoded := s2.decoded ++ [LayerTypeDot1Q] } := by
+            refine ⟨by simp only [hd], by simp only [ht], fun hm => ?_, fun _ => rfl⟩
+            simp only [List.mem_append, List.mem_singleton] at hm
+            rcases hm with hm | hm
+            · exact he hm
+            · exact absurd hm.symm hne
+          split
+          · exact ⟨_, _, 0, rfl, rfl, hag⟩
+          · exact ih _ _ _ _ hag
+      · rw [dlpLoop_other _ _ _ _ e1 e2, dlpLoop_other _ _ _ _ e1 e2]
+        split
+        · exact ⟨_, _, 0, rfl, rfl, hd, ht, he, hq⟩
+        · exact ⟨_, _, 2, rfl, rfl, hd, ht, he, hq⟩
+
 end Gp.Eth
